@@ -100,10 +100,12 @@ Definition all_versions : list N := map N.of_nat (seq 0 (S (N.to_nat logic_versi
 Definition all_bytes : list N := map N.of_nat (seq 0 256).
 
 (* the dumped run-time tables are exactly what the model of init() builds from the dumped OpSpecs *)
+Definition tables_match_at (v op : N) : bool :=
+  entry_eqb (gen_tbl v op) (tab_get (init_table src_specs v) op).
 Definition tables_match_init : bool :=
-  forallb (fun v => forallb (fun op => entry_eqb (gen_tbl v op) (tab_get (init_table src_specs v) op)) all_bytes)
-          all_versions
-  && N.eqb (N.of_nat (List.length ops_by_opcode)) (logic_version + 1).
+  forallb (fun v => forallb (tables_match_at v) all_bytes) all_versions.
+Definition tables_len_ok : bool :=
+  N.eqb (N.of_nat (List.length ops_by_opcode)) (logic_version + 1).
 
 (* ------------------------------------------------------------------ fields *)
 Definition group_get (k : N) : option fgroup :=
